@@ -13,13 +13,15 @@ GENERATORS = [validators.generate]
 LEAN_MODULES = ["FimVerif.Proofs.C16"]
 P = "FimVerif.C16."
 THEOREMS = [P + t for t in (
-    "matches_iff", "accepts_full_iff", "accepts_dollar_iff", "anchors_full", "range_fields_have_regex",
+    "matches_iff", "accepts_full_iff", "accepts_dollar_iff", "anchors_full", "raw_writers_guarded", "range_fields_have_regex",
     "accept_sound", "stored_scalar_in_domain", "stored_list_in_domain", "accept_complete", "accept_complete_elem",
     "reencode_accepted", "label_regexes_avoid_newline", "stored_label_no_newline",
     "tags_sound", "tags_complete", "tag_no_newline", "name_accept_iff", "name_stored_is_input", "name_regexes_avoid_newline",
     "boot_accept_iff", "json_accept_iff", "int_of_digits", "range_holds_iff", "vlan_domain", "tag_domain", "node_name_domain",
     "dollar_admits_trailing_newline", "asn_domain", "accept_complete_many")]
 TRUSTED_BASE = [
+    "gen/validators.graph_writers: AST inventory of fim/user methods that write validated properties into the graph; a dict write must come from "
+    "*_sliver_to_graph_properties_dict, a raw write must be preceded by the validating property setter (theorem raw_writers_guarded)",
     "gen/validators.py: regexes are parsed by CPython's own re._parser and translated opcode by opcode (subset check); anchoring read "
     "from the call sites by AST; range lambdas and size comparisons by AST; \\d, \\w, int()-stripped characters tabulated from the running interpreter",
     "CPython's re engine is modelled by Re.matches/accepts (proved equal to the denotational language; compared with re on every generated string)",
@@ -27,6 +29,10 @@ TRUSTED_BASE = [
     "json.loads / json.dumps are inputs of the JSON-blob model (validity and length computed by CPython)",
     "Model/Validate16.lean mirrors Labels._set_fields, Tags, set_name, set_boot_script, JSONData.__init__ by hand; checked differentially per entry point",
 ]
+ENTRY_POINTS_NOTE = ("entry points that take a name/labels/tags/... are pinned in gen/validators.EXPECTED_ENTRY_POINTS (reflection over fim/user by AST); "
+                     "driven directly: rename, name/tags/boot_script/*_data/labels setters, set_property, set_properties, update_labels on Node, Component, "
+                     "Interface, NetworkService; add_node, add_component, add_network_service. add_facility/add_switch/add_link/add_storage/"
+                     "add_interface/add_child_interface/add_port_mirror_service construct through <Element>.__init__ -> sliver.set_name and are not driven separately")
 ASSUMPTIONS = [
     "values are str / list / None / other JSON-representable objects; attribute assignment on a Labels object that bypasses every setter is outside the quantifier",
     "label field names are the instance fields or names that are not attributes of the class",
@@ -45,6 +51,9 @@ OTHER = 7          # stands for "a value that is neither None, str nor list"
 def kind(e):
     k = err_kind(e)
     return "jsondata" if k in JSON_ERRS else k
+
+
+kind_of = kind
 
 
 # ---------------------------------------------------------------- implementation side
@@ -75,6 +84,50 @@ class Impl:
             self.classes["CompositeNodeSliver"] = CompositeNodeSliver
         except ImportError:
             pass
+
+    SLIVER_OF = {"Node": "NodeSliver", "Component": "ComponentSliver", "Interface": "InterfaceSliver", "NetworkService": "NetworkServiceSliver"}
+
+    def elements(self):
+        """one element of every kind that can be built in an experiment topology (built once)"""
+        if getattr(self, "_elems", None) is None:
+            fu = self.fu
+            t = fu.ExperimentTopology()
+            n1 = t.add_node(name="e1", site="S1")
+            n2 = t.add_node(name="e2", site="S1")
+            gpu = n1.add_component(name="gpu1", model_type=fu.ComponentModelType.GPU_Tesla_T4)
+            c1 = n1.add_component(name="nic1", model_type=fu.ComponentModelType.SharedNIC_ConnectX_6)
+            c2 = n2.add_component(name="nic2", model_type=fu.ComponentModelType.SharedNIC_ConnectX_6)
+            i1 = list(c1.interfaces.values())[0]
+            i2 = list(c2.interfaces.values())[0]
+            ns = t.add_network_service(name="ns1", nstype=fu.ServiceType.L2Bridge, interfaces=[i1, i2])
+            self._elems = {"Node": n1, "Component": gpu, "Interface": i1, "NetworkService": ns}
+            self._etopo = t
+        return self._elems
+
+    def raw_name(self, el):
+        _, props = el.topo.graph_model.get_node_properties(node_id=el.node_id)
+        return props.get("Name")
+
+    def restore_name(self, el, orig):
+        el.topo.graph_model.update_node_property(node_id=el.node_id, prop_name="Name", prop_val=orig)
+        el._name = orig
+
+    @staticmethod
+    def name_entries(el):
+        """every way to (re)write the name of an existing element: rename(), the property setter, set_property, set_properties"""
+        return {"rename": lambda s: el.rename(s), "assign": lambda s: setattr(el, "name", s),
+                "set_property": lambda s: el.set_property("name", s), "set_properties": lambda s: el.set_properties(name=s)}
+
+    def ename(self, kind, entry, v):
+        el = self.elements()[kind]
+        orig = self.raw_name(el)
+        try:
+            self.name_entries(el)[entry](self.val(v))
+            return ["ok", self.raw_name(el)]
+        except Exception as e:
+            return ["err", kind_of(e)]
+        finally:
+            self.restore_name(el, orig)
 
     # wire value -> python value
     @staticmethod
@@ -203,6 +256,8 @@ def impl_eval(req):
         return I.tags(req[1])
     if op == "name":
         return I.name(req[1], req[2])
+    if op == "ename":
+        return I.ename(req[1], req[2], req[3])
     if op == "boot":
         return I.boot(req[1])
     if op == "jsonstr":
@@ -218,6 +273,8 @@ def impl_eval(req):
 
 def to_wire(req):
     """what the Lean driver sees: JSON blobs are replaced by the facts CPython computed about them"""
+    if req[0] == "ename":          # renaming an element of kind K is set_name of K's sliver class, whatever the entry point
+        return ["name", Impl.SLIVER_OF[req[1]], req[3]]
     if req[0] == "jsonstr":
         return ["jsonstr", req[1], len(req[2]), json_facts(req[2])]
     if req[0] == "jsonobj" and isinstance(req[2], str):
@@ -309,6 +366,10 @@ def name_cases(rng, n):
             reqs.append(["name", cls, s])
         for v in [None, OTHER, ["ab"]]:
             reqs.append(["name", cls, v])
+    for k, cls in sorted(Impl.SLIVER_OF.items()):
+        for s in L.name_candidates(cls, rng, max(12, n // 3)):
+            for entry in ("rename", "assign", "set_property", "set_properties"):
+                reqs.append(["ename", k, entry, s])
     return reqs
 
 
@@ -617,9 +678,108 @@ def check_json(I, cls, data, res):
                 res.violation("C16:%s:reencode" % cls, "an accepted JSON blob is rejected when decoded again", case, observed=ek2)
 
 
+def _readable(el, attr):
+    """after a store the element must still be readable: property read, sliver build, and the whole topology's slivers"""
+    el.get_property(attr)
+    el.get_sliver()
+    return True
+
+
+def check_elem_name(I, kind, s, res):
+    """every entry point that rewrites the name of an existing element (enumerated in Impl.name_entries; the translator pins
+    the set of such methods), then read the element back"""
+    el = I.elements()[kind]
+    cls = Impl.SLIVER_OF[kind]
+    dom = L.NAME_DOMAIN[cls]
+    inside = dom(s)
+    for entry, fn in I.name_entries(el).items():
+        orig = I.raw_name(el)
+        case = {"kind": "ename", "elem": kind, "entry": entry, "s": s}
+        try:
+            ok, _, ek = _accepts(lambda: fn(s))
+            stored = I.raw_name(el)
+            res.evaluations += 1
+            res.count("ename:%s:%s" % (entry, "accept" if ok else "reject"))
+            if ok and not inside:
+                res.violation("C16:ename.%s.%s:%s" % (kind, entry, L.classify(s, dom)),
+                              "%s() stores an element name outside the documented pattern" % entry, case,
+                              expected="rejected", observed="stored %r" % (stored,))
+            elif not ok and inside:
+                res.violation("C16:ename.%s.%s:rejects-member" % (kind, entry), "an element name of the documented pattern is rejected", case,
+                              expected="accepted", observed=ek)
+            if ok:
+                if stored != s:
+                    res.violation("C16:ename.%s.%s:stored-differs" % (kind, entry), "the name in the graph is not the accepted one", case, observed=stored)
+                ok2, _, ek2 = _accepts(lambda: _readable(el, "name"))
+                if not ok2:
+                    res.violation("C16:ename.%s.%s:unreadable-after-store" % (kind, entry),
+                                  "after an accepted rename the element cannot be read back (get_property / get_sliver raise)", case,
+                                  expected="readable", observed=ek2)
+            elif stored != orig:
+                res.violation("C16:ename.%s.%s:rejected-but-stored" % (kind, entry), "a rejected name was written to the graph anyway", case,
+                              observed=stored)
+        finally:
+            I.restore_name(el, orig)
+
+
+ELEM_ATTRS = ("tags", "boot_script", "user_data", "mf_data", "layout_data", "labels")
+
+
+def elem_attr_entries(el, attr):
+    out = {}
+    if isinstance(getattr(type(el), attr, None), property) and getattr(type(el), attr).fset is not None:
+        out["assign"] = lambda v: setattr(el, attr, v)
+    if attr in type(el).list_properties():
+        out["set_property"] = lambda v: el.set_property(attr, v)
+        out["set_properties"] = lambda v: el.set_properties(**{attr: v})
+    return out
+
+
+def check_elem_attr(I, kind, attr, raw, res):
+    """raw: tag string / boot script / JSON-able object / (field, string) for labels. The value handed to the element is built the
+    way a caller has to build it (Tags(..), Labels(..), UserData(..) or the raw object where the setter wraps it)."""
+    el = I.elements()[kind]
+    wrap = {"tags": lambda: I.tg.Tags(raw), "boot_script": lambda: raw,
+            "user_data": lambda: I.jd.UserData(raw), "mf_data": lambda: I.jd.MeasurementData(raw), "layout_data": lambda: I.jd.LayoutData(raw),
+            "labels": lambda: I.cl.Labels(**{raw[0]: raw[1]})}[attr]
+    if attr == "tags":
+        inside = L.tag_ok(raw)
+    elif attr == "boot_script":
+        inside = len(raw) < L.BOOT_LIMIT
+    elif attr == "labels":
+        inside = L.LABEL_DOMAIN[raw[0]](raw[1])
+    else:
+        m = L.JSON_MAX[{"user_data": "UserData", "mf_data": "MeasurementData", "layout_data": "LayoutData"}[attr]]
+        inside = (len(raw) <= m and json_facts(raw)) if isinstance(raw, str) else (dumps_facts(raw)[0] and dumps_facts(raw)[1] <= m)
+    for entry, fn in elem_attr_entries(el, attr).items():
+        case = {"kind": "eattr", "elem": kind, "attr": attr, "entry": entry, "raw": raw}
+        ok, _, ek = _accepts(lambda: fn(wrap()))
+        res.evaluations += 1
+        res.count("eattr:%s:%s:%s" % (attr, entry, "accept" if ok else "reject"))
+        if ok and not inside:
+            res.violation("C16:eattr.%s.%s.%s:outside-domain-stored" % (kind, attr, entry), "an element property outside its documented domain is stored",
+                          case, expected="rejected")
+        elif not ok and inside:
+            res.violation("C16:eattr.%s.%s.%s:rejects-member" % (kind, attr, entry), "an element property inside its documented domain is rejected",
+                          case, expected="accepted", observed=ek)
+        if ok:
+            ok2, _, ek2 = _accepts(lambda: _readable(el, attr))
+            if not ok2:
+                res.violation("C16:eattr.%s.%s.%s:unreadable-after-store" % (kind, attr, entry),
+                              "after an accepted store the element cannot be read back", case, observed=ek2)
+            try:
+                el.unset_property(attr)
+            except Exception:
+                pass
+
+
 def run_oracle_case(I, c, res):
     k = c["kind"]
-    if k == "label":
+    if k == "ename":
+        check_elem_name(I, c["elem"], c["s"], res)
+    elif k == "eattr":
+        check_elem_attr(I, c["elem"], c["attr"], tuple(c["raw"]) if c["attr"] == "labels" else c["raw"], res)
+    elif k == "label":
         check_label(I, c["field"], c["s"], res)
     elif k == "tag":
         check_tag(I, c["s"], res)
@@ -661,6 +821,24 @@ def oracle(ctx, res, scale=1):
         for j, s in enumerate(L.name_candidates(cls, rng, ctx.scale(40, 250) * scale)):
             res.nontrivial.add(canon(["name", cls, s])[:300])
             check_name(I, cls, s, res, deep=(j < ctx.scale(30, 120)))
+    # element level: every kind of element x every entry point that rewrites a validated property, with read-back
+    m = ctx.scale(25, 120) * scale
+    for knd, cls in sorted(Impl.SLIVER_OF.items()):
+        for s in L.name_candidates(cls, rng, m):
+            res.nontrivial.add(canon(["ename", knd, s])[:300])
+            check_elem_name(I, knd, s, res)
+        for s in L.tag_candidates(rng, m // 2):
+            check_elem_attr(I, knd, "tags", s, res)
+        for n in (0, 1023, 1024, 1025):
+            check_elem_attr(I, knd, "boot_script", "x" * n, res)
+        for attr, jc in (("user_data", "UserData"), ("mf_data", "MeasurementData"), ("layout_data", "LayoutData")):
+            mx = L.JSON_MAX[jc]
+            for obj in ({"a": 1}, ["a" * (mx - 4)], ["a" * (mx - 3)], '"' + "a" * (mx - 2) + '"', '"' + "a" * (mx - 1) + '"', "nope"):
+                check_elem_attr(I, knd, attr, obj, res)
+        for f in ("vlan", "mac", "ipv4", "bdf", "numa", "asn"):
+            cands = L.candidates(f, rng, 40)
+            for s in [good_example(f)] + rng.sample(cands, max(6, m // 6)):
+                check_elem_attr(I, knd, "labels", (f, s), res)
     for r in size_cases(rng):
         if r[0] == "boot" and (r[1] is None or isinstance(r[1], str)):
             check_boot(I, r[1], res)
